@@ -283,8 +283,35 @@ def gen_histories(tier, seed, tag, probe=True, scribble_twins=False, maxlen=None
     return {"v3": lines, "stats": stats}
 
 
+BIG_UNITS = ["d1p,640,488,16,8,r:3:4", "d1p,8,8,64,2,r:1:16", "d2p,648,0,656,492,r:2:82", "d2p,0,490,1304,4,r:5:652",
+             "refreshp,640,480,16,24", "brefreshp,0,0,64,8;busy;busy", "mode,1031", "lut,c,r:1:10", "lut,bd,z:0", "poweroff",
+             "refresh", "hibernate;reset;init,0000", "reset;init,0010", "d1,r:9:163", "d2,r:9:815", "status"]
+BIG_HDR = "panel=epd12in48b_v2 delay=none raise=02,04,12 busylvl=0 fault=- scribble=0"
+
+
+def big_c02_lines(tier, seed):
+    """12.48in: histories (every unit, ordered pairs of units) followed by a full-frame write of
+    one row / k rows / (a few) whole frames on either plane, judged on the four simulated chips"""
+    rnd = random.Random(seed * 7919 + 202)
+    W8 = 163
+    hs = [[u] for u in BIG_UNITS] + [[u, v] for u in BIG_UNITS for v in BIG_UNITS]
+    if tier == "thorough":
+        hs += [[rnd.choice(BIG_UNITS) for _ in range(rnd.randint(3, 5))] for _ in range(300)]
+    lines = []
+    for k, h in enumerate(hs):
+        n = [W8, W8 * 5, W8 * 8, W8 * 100][k % 4] if k % 37 else W8 * 984
+        pl = "d1" if k % 2 == 0 else "d2"
+        ops = ["reset", f"init,{rnd.choice(['0000', '0101', '1031', '0120'])}"] + [o for u in h for o in u.split(";")] + [f"{pl},r:{k + 1}:{n}"]
+        lines.append(f"id=c02-big-{k} {BIG_HDR} sched={sched_for(rnd, 12, 2)} ops=" + ";".join(ops))
+    return lines
+
+
 def gen_c02(tier, seed):
-    return gen_histories(tier, seed, "c02")
+    g = gen_histories(tier, seed, "c02")
+    big = big_c02_lines(tier, seed)
+    g["v3"] = g["v3"] + big
+    g["stats"]["big_panel_lines"] = len(big)
+    return g
 
 
 FIFO_SAFE = {"reset", "init", "mode", "d1", "d2", "d1p", "d2p", "lut", "busy", "status"}
@@ -499,7 +526,21 @@ def gen_c08(tier, seed):
             k += 1
         lines.append(PN.line(f"c08-{p.name}-ww", p, ["new", "wake", "wake", f"upd,pos:{p.frame()}", "disp"], sched=sched_for(rnd)))
         lines.append(PN.line(f"c08-{p.name}-cyc", p, ["new"] + ["sleep", "wake"] * 3 + [f"upd,pos:{p.frame()}", "disp"], sched=sched_for(rnd)))
-    return {"v3": lines, "stats": {"lines": len(lines)}}
+    # the 12.48in driver: sleep = hibernate, wake-up = reset + init
+    cfgs = ["0000", "0101", "1031", "0121", "1110"]
+    j = 0
+    bigl = []
+    for pre in [""] + BIG_UNITS:
+        for suf in ([""] + BIG_UNITS if tier == "thorough" else [rnd.choice([""] + BIG_UNITS), "d1p,8,8,64,2,r:1:16"]):
+            c1, c2 = rnd.choice(cfgs), rnd.choice(cfgs)
+            ops = ["reset", f"init,{c1}"] + [o for o in pre.split(";") if o] + ["hibernate", "reset", f"init,{c2 if j % 2 else c1}"] + \
+                  [o for o in suf.split(";") if o] + [f"{'d1' if j % 2 else 'd2'},r:{j + 1}:{163 * (1 + j % 7)}", "refresh"]
+            bigl.append(f"id=c08-big-{j} {BIG_HDR} sched={sched_for(rnd, 12, 2)} ops=" + ";".join(ops)); j += 1
+    for c in cfgs:
+        bigl.append(f"id=c08-big-cyc-{c} {BIG_HDR} sched={sched_for(rnd, 12, 2)} ops=" + ";".join(["reset", f"init,{c}"] + ["hibernate", "reset", f"init,{c}"] * 3 + ["d1,r:3:815", "refresh"]))
+        bigl.append(f"id=c08-big-ww-{c} {BIG_HDR} sched={sched_for(rnd, 12, 2)} ops=" + ";".join(["reset", f"init,{c}", "refresh", "reset", f"init,{c}", "reset", f"init,{cfgs[0]}", "d2,r:3:326", "refresh"]))
+    lines += bigl
+    return {"v3": lines, "stats": {"lines": len(lines), "big_panel_lines": len(bigl)}}
 
 
 def gen_c17(tier, seed):
@@ -581,7 +622,13 @@ def gen_c10(tier, seed):
 
 
 def gen_c18(tier, seed):
-    return all_ops_lines("c18", tier, seed, feats=("v3", "v2", "alt"))
+    out = all_ops_lines("c18", tier, seed, feats=("v3", "v2", "alt"))
+    # the 12.48in driver: every public call, LUT tables of every length class, windows, full frames, histories
+    big = [l.replace("id=c10-big-", "id=c18-big-") for l in gen_c10(tier, seed)["v3"] if "id=c10-big-" in l and "bus=fifo" not in l]
+    big += [l.replace("id=c02-big-", "id=c18-bigh-") for l in big_c02_lines(tier, seed)[:40]]
+    out["v3"] = out["v3"] + big
+    out.setdefault("stats", {})["big_panel_lines"] = len(big)
+    return out
 
 
 def gen_c11(tier, seed):
@@ -656,6 +703,22 @@ def gen_c05(tier, seed):
         for u in A:
             lines.append(PN.line(f"c05-{p.name}-w{k}", p, ["new"] + u + ["wait"], sched=",".join(str(rnd.choice(durs)) for _ in range(14)), delay=rnd.choice(["none", "0", "7"])))
             k += 1
+    # the 12.48in driver: four BUSY pins.  Every ordered pair of calls x busy durations x which
+    # controller is the slow one (`slow=k`: only that pin follows the episode; none: all four do)
+    U = ["refresh", "brefresh", "refreshp,0,0,64,8", "refreshp,1240,980,64,4", "refreshp,640,480,16,24", "brefreshp,0,500,64,8",
+         "poweroff", "hibernate;reset;init,0000", "d1,r:1:163", "d2p,8,8,64,2,r:1:16", "busy;busy;busy", "mode,0101", "status"]
+    bigl = []
+    j = 0
+    durs = [0, 1, 2, 5] if tier == "quick" else list(range(8))
+    for a in U:
+        for b in U:
+            for slow in ([None, j % 4] if tier == "quick" else [None, 0, 1, 2, 3]):
+                sched = ",".join(str(rnd.choice(durs)) for _ in range(16))
+                ops = ["reset", "init,0000"] + a.split(";") + b.split(";")
+                bigl.append(f"id=c05-big-{j} {BIG_HDR} sched={sched}" + (f" slow={slow}" if slow is not None else "") + " ops=" + ";".join(ops))
+                j += 1
+    lines += bigl
+    stats["big_panel_lines"] = len(bigl)
     return {"v3": lines, "stats": stats}
 
 
